@@ -930,8 +930,25 @@ fn expected_symbol(e: E) -> Option<T> {
 }
 
 pub fn c09(v: &View, out: &mut Vec<String>) {
+    use std::collections::HashMap;
     let len = v.src.len() as u32;
     let n = v.toks.len();
+    // zero-width tokens per (type, offset) and "missing expected" errors per (symbol, kind, offset):
+    // keeps the oracle linear on inputs with tens of thousands of recovery tokens
+    let mut zw: HashMap<(u16, u32), u32> = HashMap::new();
+    for t in &v.toks {
+        if t.start == t.end {
+            *zw.entry((t.ty as u16, t.start)).or_insert(0) += 1;
+        }
+    }
+    let mut errs_at: HashMap<(u16, u32), u32> = HashMap::new();
+    let mut sym_err_at: HashMap<(u16, u32), u32> = HashMap::new();
+    for e in v.errors {
+        *errs_at.entry((e.error_kind() as u16, e.at_byte_offset())).or_insert(0) += 1;
+        if let Some(sym) = expected_symbol(e.error_kind()) {
+            *sym_err_at.entry((sym as u16, e.at_byte_offset())).or_insert(0) += 1;
+        }
+    }
     let mut last_off = 0u32;
     for e in v.errors {
         let k = e.error_kind();
@@ -953,11 +970,7 @@ pub fn c09(v: &View, out: &mut Vec<String>) {
             }
         }
         if let Some(sym) = expected_symbol(k) {
-            let found = v
-                .toks
-                .iter()
-                .any(|t| t.ty == sym && t.start == o && t.end == o);
-            if !found {
+            if !zw.contains_key(&(sym as u16, o)) {
                 out.push(format!("anchor.error-without-token:{k:?}"));
             }
         }
@@ -965,14 +978,15 @@ pub fn c09(v: &View, out: &mut Vec<String>) {
     // bijection: at one offset there are never more 'missing expected X' errors than zero-width
     // X tokens (one error may cover several virtual ')' of one unwinding); a surplus error is a
     // diagnostic that survived from lexing that was rolled back
-    for (i, e) in v.errors.iter().enumerate() {
+    let mut seen: std::collections::HashSet<(u16, u32)> = std::collections::HashSet::new();
+    for e in v.errors {
         let Some(sym) = expected_symbol(e.error_kind()) else { continue };
         let o = e.at_byte_offset();
-        if v.errors[..i].iter().any(|p| p.error_kind() == e.error_kind() && p.at_byte_offset() == o) {
+        if !seen.insert((e.error_kind() as u16, o)) {
             continue; // counted at the first of them
         }
-        let n_err = v.errors.iter().filter(|p| p.error_kind() == e.error_kind() && p.at_byte_offset() == o).count();
-        let n_tok = v.toks.iter().filter(|t| t.ty == sym && t.start == o && t.end == o).count();
+        let n_err = errs_at.get(&(e.error_kind() as u16, o)).copied().unwrap_or(0);
+        let n_tok = zw.get(&(sym as u16, o)).copied().unwrap_or(0);
         if n_err > n_tok && n_tok > 0 {
             out.push(format!("anchor.more-errors-than-tokens:{:?}", e.error_kind()));
         }
@@ -982,6 +996,7 @@ pub fn c09(v: &View, out: &mut Vec<String>) {
     if v.res.verif.rollbacks_with_new_errors > 0 {
         out.push("anchor.error-survived-rollback".to_string());
     }
+    let mut reported: std::collections::HashSet<u16> = std::collections::HashSet::new();
     for t in &v.toks {
         if t.start == t.end
             && matches!(
@@ -992,11 +1007,7 @@ pub fn c09(v: &View, out: &mut Vec<String>) {
             if t.ty == T::SEMI && t.start == len {
                 continue; // end-of-input semicolon
             }
-            let has = v
-                .errors
-                .iter()
-                .any(|e| e.at_byte_offset() == t.start && expected_symbol(e.error_kind()) == Some(t.ty));
-            if !has {
+            if !sym_err_at.contains_key(&(t.ty as u16, t.start)) && reported.insert(t.ty as u16) {
                 out.push(format!("anchor.token-without-error:{:?}", t.ty));
             }
         }
